@@ -613,6 +613,43 @@ def run(ctx):
                           note="two processes plan the same tree differently (no threads involved: the difference is per process)")
             return
 
+    # ---- neighbour files: a one-word (ambiguous) term after the same word in small files of two directories whose sibling
+    #      files write `<word> <identifier>` in DIFFERENT styles (and one directory where two styles tie), next to a large
+    #      file that shifts the order in which workers finish.  Whatever context decides the style, the plan must not depend
+    #      on which file a worker finishes first, nor on the process (seeded change C14h: cross-file level switched on —
+    #      its cache is process-wide and keyed without the directory, its tie is decided by HashMap order) ---------------
+    for ni in range(2 if quick else 6):
+        S = rng.choice([w for w in gen.VOCAB if len(w) >= 3])
+        others = [w for w in gen.VOCAB if w != S]
+        R = gen.render(rng.choice(["snake", "camel", "kebab"]), rng.sample(others, 2))
+        a, b = rng.sample(["snake", "camel", "kebab", "pascal"], 2)
+        lead = rng.choice(["item", "let", "use", "call"])
+        ext = rng.choice(["txt", "txt", "md", "cfg"])
+
+        ntree = neighbour_tree(S, a, b, lead, ext, ni)
+        nargs = ["plan", S, R, "big", "small", "tie", "--dry-run"]
+        changed, outs = neighbour_runs(ntree, nargs, 10 if quick else 30)
+        ctx.case(("neighbours", S, R, a, b, lead, ext), nontrivial=True)
+        ctx.count("neighbour_files")
+        nparams = {"S": S, "a": a, "b": b, "lead": lead, "ext": ext, "ni": ni}
+        if changed:
+            ctx.violation("input", {"family": "neighbours", "args": nargs, "params": nparams},
+                          expected="dry runs leave the tree byte-identical", observed="tree changed",
+                          note="tree of the neighbour-files family changed under --dry-run")
+            return
+        diff = next((o for o in outs[1:] if o != outs[0]), None) if outs else None
+        if diff is not None:
+            x, y = _first_diff({"matches": outs[0][0], "paths": outs[0][1], "stats": outs[0][2]},
+                               {"matches": diff[0], "paths": diff[1], "stats": diff[2]})
+            small = {k: v for k, v in ntree.items() if not k.startswith("big/use")}
+            ctx.violation("input", {"family": "neighbours", "tree_without_big_file": common.tree_dump(gen.tree_to_snap(small)),
+                                    "big_file": f"big/use.{ext} = 'lorem ipsum dolor sit amet\\n' x {20000 + 5000 * ni} + '{lead} {S}\\n'",
+                                    "args": nargs, "params": nparams, "thread_counts_cycled": [1, 2, 16, 4, 8]},
+                          expected="the same plan on every run and for every worker-thread count",
+                          observed={"run_a": x, "run_b": y, "runs": len(outs)},
+                          note="the replacement chosen for an ambiguous occurrence depends on the worker-thread count or on the process")
+            return
+
     # ---- several explicit search roots -------------------------------------------------------------
     mthreads = [1, 8] if quick else [1, 2, 4, 8, 16]
     mrepeats = 6 if quick else 8
@@ -688,6 +725,34 @@ def _first_diff(a, b, path=""):
     return ({path: a}, {path: b})
 
 
+def neighbour_tree(S, a, b, lead, ext, ni):
+    others = [w for w in gen.VOCAB if w != S]
+
+    def neigh(st, k0):
+        return "".join(f"{lead} {gen.render(st, [others[(k0 + k) % len(others)], others[(k0 + 3 * k + 1) % len(others)]])}\n"
+                       for k in range(3 + ni % 2))
+    return {f"big/use.{ext}": ("f", (b"lorem ipsum dolor sit amet\n" * (20000 + 5000 * ni)) + f"{lead} {S}\n".encode(), 0o644),
+            f"big/n1.{ext}": ("f", neigh(a, 0).encode(), 0o644),
+            f"small/use.{ext}": ("f", f"{lead} {S}\n".encode(), 0o644),
+            f"small/n1.{ext}": ("f", neigh(b, 2).encode(), 0o644),
+            f"tie/use.{ext}": ("f", f"{lead} {S}\n".encode(), 0o644),
+            f"tie/n1.{ext}": ("f", (neigh(a, 4) + neigh(b, 4)).encode(), 0o644)}
+
+
+def neighbour_runs(ntree, nargs, reps):
+    """-> (tree changed?, list of plans)"""
+    with common.scratch() as d:
+        common.materialize(d, ntree)
+        nbefore = common.snapshot(d, exclude=())
+        outs = []
+        for rep in range(reps):
+            out, err = _plan_once(d, nargs, [1, 2, 16, 4, 8][rep % 5])
+            if err:
+                break
+            outs.append(out)
+        return nbefore != common.snapshot(d, exclude=()), outs
+
+
 def replay(ctx, path):
     obj = json.load(open(path))
     case = obj.get("case", {})
@@ -700,6 +765,14 @@ def replay(ctx, path):
         print(json.dumps(res, indent=1, default=str)[:3000])
         if not res.get("ok"):
             ctx.violation("input", case, expected=obj.get("expected"), observed=res)
+        return
+    if isinstance(case, dict) and case.get("family") == "neighbours":
+        q = case["params"]
+        changed, outs = neighbour_runs(neighbour_tree(q["S"], q["a"], q["b"], q["lead"], q["ext"], q["ni"]), case["args"], 30)
+        differ = [i for i, o in enumerate(outs) if o != outs[0]]
+        print(json.dumps({"runs": len(outs), "runs_that_differ_from_the_first": differ, "tree_changed": changed}, indent=1))
+        if changed or differ:
+            ctx.violation("input", case, expected=obj.get("expected"), observed={"runs_that_differ": differ, "tree_changed": changed})
         return
     if isinstance(case, dict) and case.get("family") == "confusable":
         tree = common.tree_undump(case["tree"])
